@@ -24,17 +24,20 @@ from vlib.runner import Violation
 
 PROPERTY_ID = "C13"
 LEVEL = "exploration"
-RULE = ("Random: 1-7 hits on one or two proteins from a pool of 2-4 profiles (lengths 10/20/50/100, one of them a "
+RULE = ("Random: 1-7 hits on one or two proteins from a pool of 2-5 profiles (lengths 10/20/30/50/100, one of them a "
         "'regulator'), coordinates built relative to earlier hits (equal start, start at previous end minus the "
         "margin -1/0/+1, nested, chained, same-profile fragments around the 1.5x span rule, lengths around the "
         "1/3 and 1/2 completeness thresholds), scores from a 3-value set so that ties are common; the same "
         "construction shaped as HmmerHits (cutoffs, overlap_limit 1/10/100), as HSPs with equivalence groups "
-        "(overlaps of 19-22 around the >20 rule) and as docking-domain hits around the 50-residue terminal zone. "
-        "Enumeration: every set of <= 3 (quick) / <= 4 (thorough) distinct hits over a 6-point coordinate grid, "
-        "2 profiles, 2 scores, both modes. Every case is evaluated for all input orders (all n! for n <= 4, all "
-        "orders of the equal-start groups plus a fixed family of orders above that). A case is non-trivial when "
-        "two hits tie on start or score, or some hits form a chain A-B-C with A and C disjoint, or two hits of "
-        "one profile are present; distinct = sha1 of the canonical spec.")
+        "(overlaps of 19-22 around the >20 rule, object hashes that collide in small sets) and as docking-domain "
+        "hits around the 50-residue terminal zone. Enumeration: every set of <= 2 (quick) / <= 3 (thorough) "
+        "distinct hits over a 6-point coordinate grid, 2 profiles, 2 scores, both modes, plus every 11th set of 3 "
+        "(quick) / every 37th set of 4 (thorough); the same for remove_overlapping. Every case is evaluated for "
+        "all input orders (all n! for n <= 4, a fixed family plus all arrangements of the equal-start groups "
+        "above that). A case is non-trivial when two hits tie on start or score, or some hits form a chain A-B-C "
+        "with A and C disjoint, or two hits of one profile are present (filter: a tie, a group of >= 3 or a "
+        "removal; docking: a docking-type hit); distinct = sha1 of the canonical spec. Cases that show an open "
+        "known finding are counted in excluded_known, not in the class counters.")
 ASSUMPTIONS = [
     "hits have start < end and every profile has a length (the callers build both from HMMER/BLAST output)",
     "refinement margin = 20% of the longer of the two profiles (docstring of _remove_overlapping); two hits "
@@ -45,6 +48,8 @@ ASSUMPTIONS = [
     "'incomplete' = at most half the profile length; fragments of at most a third of the profile length may "
     "vanish without an alternative (docstring of remove_incomplete, pinned by test_incomplete_removal)",
     "a hit that ranks 'at least as high' explains a drop (score >=); the tie direction is not asserted",
+    "two results are 'the same' when the same hits survive for the same proteins; the mutual order of hits that "
+    "start at the same residue is not compared (ordering by position is judged by its own clause)",
     "hmmer.remove_overlapping: overlap_limit >= 1 (callers use the default 10, tests 10 and 100), scores and "
     "cutoffs positive, e-value a function of profile and score",
     "refine_hmmscan_results puts the hits into a set; the orders a set can present equal-start hits in are "
@@ -439,12 +444,10 @@ def _refine_failures(spec: dict) -> tuple:
             failures.append(("refine_order_public", {"mode": mode, "order": "set versus list", "first": base,
                                                      "permuted": first, "equal_start_pairs": []}))
 
-    all_hits = [h for hits in by_cds.values() for h in hits]
     info["nontrivial"] = _refine_nontrivial(by_cds)
     info["classes"].extend(_refine_classes(by_cds, base, lengths, len(seen_results)))
     info["classes"].append(f"cds_{len(cds_names)}")
     info["classes"].append("some_output" if any(base.values()) else "empty_output")
-    del all_hits
     return failures, info
 
 
